@@ -932,7 +932,7 @@ func (x *c09Run) readFamily(thorough bool) {
 	// delivered prefixes up to this length get ALL their compositions
 	fullRdm, fullPdec, fullJSON := 12, 12, 12
 	if thorough {
-		fullRdm, fullPdec, fullJSON = 18, 17, 15
+		fullRdm, fullPdec, fullJSON = 17, 17, 16
 	}
 	targets := []tgt{
 		{"rdm", []string{"penc"}, fullRdm},
@@ -943,7 +943,12 @@ func (x *c09Run) readFamily(thorough bool) {
 	seqs := c09Sequences()
 	seen := map[string]bool{}
 	var dedup int64
-	defer func() { x.r.Extra["delivered_prefixes_shared_with_an_earlier_stream_skipped"] = dedup }()
+	perTarget := map[string]int64{}
+	dry := os.Getenv("VERIF_C09_DRY") != "" // development aid: count the enumeration without running it
+	defer func() {
+		x.r.Extra["delivered_prefixes_shared_with_an_earlier_stream_skipped"] = dedup
+		x.r.Extra["read_cases_enumerated_all_shards"] = perTarget
+	}()
 	for _, tg := range targets {
 		for _, enc := range tg.encs {
 			for _, msgs := range seqs {
@@ -999,7 +1004,8 @@ func (x *c09Run) readFamily(thorough bool) {
 								}
 								for _, zs := range zeroStates {
 									x.k++
-									if !x.r.Mine(x.k) {
+									perTarget[tg.target]++
+									if !x.r.Mine(x.k) || dry {
 										continue
 									}
 									cs := &c09Case{Fam: "read", Target: tg.target, Enc: enc, Msgs: msgs, Cut: cut, Chunks: chunks, End: end, ZeroState: zs}
